@@ -85,7 +85,9 @@ def run(ctx):
             rnd.shuffle(ss)
             shapes += ss[:1500]
     ctx.write_scenarios("shapes", shapes)
-    seqs = ctx.tlc_gen("MC_Shapes", "Gen_ShapesSeq.cfg", num=4000 if T else 500, depth=10)
+    seqs = ctx.tlc_gen("MC_Shapes", "Gen_ShapesSeq.cfg", num=2000 if T else 100, depth=10)
+    if not T:
+        seqs = seqs[:2000]
     ctx.write_scenarios("shapeseq", seqs)
     ctx.extra["shapes_replayed"] = len(shapes)
     ctx.extra["sequences_replayed"] = len(seqs)
